@@ -8,7 +8,7 @@ read groups and programs through any pointer the caller may hold — stale ones 
 MergeHeaders, field edits), executed by `step` from the empty world.  `E : Ext` (date and URI parsing) is
 arbitrary.
 -/
-import Hts.Lemmas.HeaderApi
+import Hts.Lemmas.HeaderNoPanic
 namespace Hts.Props.C07
 open Hts.Model.Header
 
@@ -98,56 +98,87 @@ theorem merge_links (w w' : World) (hw : WInv w) (srcs : List Nat) (ls : List (L
     LinksOk w'.refs w.hdrs.length srcs ls ∧ ∀ s ∈ srcs, objsOf w'.refs s = objsOf w.refs s :=
   mergeHeaders_links hw hs hm
 
-/-! ### the edit operations never panic on a consistent world -/
+/-! ### no operation panics on a consistent world (hence none in any history from the empty world) -/
 
-theorem edits_never_panic (E : Ext) (w : World) (hw : WInv w) (op : Op)
-    (hop : match op with
-      | .ar .. | .rr .. | .sr .. | .ag .. | .rg .. | .sg .. | .ap .. | .rp .. | .sp .. | .cl .. => True
-      | _ => False) : (step E w op).res ≠ .panic := by
-  cases op <;> simp only at hop
-  case ar h p =>
+/-- every operation — edits through any pointer, Clone, MergeHeaders, NewHeader, and UnmarshalText / DecodeBinary of
+ARBITRARY bytes — returns normally or with an error: no index out of range, no nil map or pointer -/
+theorem step_never_panics (E : Ext) (w : World) (hw : WInv w) (op : Op) : (step E w op).res ≠ .panic := by
+  cases op with
+  | h0 => simp [step]
+  | hd text ps =>
+    simp only [step]; split
+    · exact newHeader_no_panic E hw _ _
+    · simp
+  | pa text => exact unmarshalText_no_panic E (winv_pushHeader hw _) _ _
+  | de b => exact decodeBinary_no_panic E (winv_pushHeader hw _) _ _
+  | um h text =>
+    simp only [step]; split
+    · exact unmarshalText_no_panic E hw _ _
+    · simp
+  | co h c => simp only [step]; split <;> simp
+  | sh h v so go => simp only [step]; split <;> simp
+  | hs h t v =>
+    simp only [step]; split
+    · unfold headerSet; repeat' split
+      all_goals simp
+    · simp
+  | nr name d => simp [step]
+  | ng name d => simp [step]
+  | np name d => simp [step]
+  | ar h p =>
     simp only [step]; split
     · exact addReference_no_panic hw.refs _ _
     · simp
-  case rr h p =>
+  | rr h p =>
     simp only [step]; split
     · unfold KW.remove; repeat' split
       all_goals simp
     · simp
-  case sr p n =>
+  | sr p n =>
     simp only [step]; split
     · exact setName_no_panic hw.refs _ _
     · simp
-  case ag h p =>
+  | gr h i => simp only [step]; split <;> simp
+  | cr p => simp only [step]; split <;> simp
+  | ag h p =>
     simp only [step]; split
     · unfold KW.addUniq KW.addNew; repeat' split
       all_goals simp
     · simp
-  case rg h p =>
+  | rg h p =>
     simp only [step]; split
     · unfold KW.remove; repeat' split
       all_goals simp
     · simp
-  case sg p n =>
+  | sg p n =>
     simp only [step]; split
     · exact setName_no_panic hw.rgs _ _
     · simp
-  case ap h p =>
+  | gg h i => simp only [step]; split <;> simp
+  | cg p => simp only [step]; split <;> simp
+  | ap h p =>
     simp only [step]; split
     · unfold KW.addUniq KW.addNew; repeat' split
       all_goals simp
     · simp
-  case rp h p =>
+  | rp h p =>
     simp only [step]; split
     · unfold KW.remove; repeat' split
       all_goals simp
     · simp
-  case sp p n =>
+  | sp p n =>
     simp only [step]; split
     · exact setName_no_panic hw.pgs _ _
     · simp
-  case cl h =>
-    simp only [step]; split <;> simp
+  | gp h i => simp only [step]; split <;> simp
+  | cp p => simp only [step]; split <;> simp
+  | cl h => simp only [step]; split <;> simp
+  | mg hs =>
+    simp only [step]; split
+    · next hg =>
+      simp only [Bool.and_eq_true, List.all_eq_true] at hg
+      exact mergeHeaders_no_panic hw (fun s hs' => live_lt (hg.1 s hs'))
+    · simp
 
 /-! ## Part 2: serialisation round trips
 
